@@ -290,7 +290,11 @@ func (c *specCtx) eval(x ast.Expr) (sv, error) {
 		if _, ok := xv.T.Underlying().(*types.Pointer); !ok {
 			return sv{}, c.errf("deref of non-pointer")
 		}
-		return sv{Val: e.specLoad(c.st, xv.Val)}, nil
+		lv := e.specLoad(c.st, xv.Val)
+		if a := e.addrOf(c.st, xv.Val); a != nil {
+			c.assumeLoadedWF(lv, a.Key)
+		}
+		return sv{Val: lv}, nil
 
 	case *ast.IndexExpr:
 		xv, err := c.eval(n.X)
@@ -386,7 +390,9 @@ func (c *specCtx) field(xv sv, name string) (sv, error) {
 					return c.mk(u.Field(i).Type(), e.project(e.rootLoad(c.st, &na), na.Steps)), nil
 				}
 				k, srt := e.heapKey(stt, i)
-				return c.mk(u.Field(i).Type(), fmt.Sprintf("(select %s %s)", e.memGet(c.st, k, srt), xv.S)), nil
+				fvv := c.mk(u.Field(i).Type(), fmt.Sprintf("(select %s %s)", e.memGet(c.st, k, srt), xv.S))
+				c.assumeLoadedWF(fvv.Val, k)
+				return fvv, nil
 			}
 		}
 		// promoted through embedded struct value
@@ -423,6 +429,23 @@ func (c *specCtx) field(xv sv, name string) (sv, error) {
 	return sv{}, c.errf("selector .%s on %v", name, t)
 }
 
+// assumeLoadedWF: a value read from the heap in a contract expression satisfies the
+// representation invariant of its type (the same fact Exec.load assumes for program loads).
+func (c *specCtx) assumeLoadedWF(v Val, key string) {
+	e := c.e
+	if c.st == nil || strings.Contains(v.S, "q.") || !needsWF(v.T, e.mode) {
+		return
+	}
+	fk := "wfl:" + v.S
+	if e.sc.funs[fk] {
+		return
+	}
+	e.sc.funs[fk] = true
+	if f := e.wfB(c.st, v, e.refBound(c.st, key)); f != "true" {
+		e.sc.assert(imp(c.st.pc, f))
+	}
+}
+
 func (c *specCtx) toIdx(v sv) (string, error) {
 	if v.c != nil {
 		x, err := c.as(v, tInt)
@@ -445,9 +468,12 @@ func (c *specCtx) index(xv, iv sv) (sv, error) {
 		if err != nil {
 			return sv{}, err
 		}
+		e.sc.noteIdx(i, e.sc.idx())
 		k, srt := e.elemKey(u.Elem())
 		m := e.memGet(c.st, k, srt)
-		return c.mk(u.Elem(), fmt.Sprintf("(select (select %s (s-base %s)) %s)", m, xv.S, e.add("(s-off "+xv.S+")", i))), nil
+		ev := c.mk(u.Elem(), fmt.Sprintf("(select (select %s (s-base %s)) %s)", m, xv.S, e.add("(s-off "+xv.S+")", i)))
+		c.assumeLoadedWF(ev.Val, k)
+		return ev, nil
 	case *types.Array:
 		i, err := c.toIdx(iv)
 		if err != nil {
@@ -721,6 +747,9 @@ func (c *specCtx) binary(n *ast.BinaryExpr) (sv, error) {
 		case token.QUO:
 			return c.mk(t, bvop("bvsdiv", "bvudiv")), nil
 		case token.REM:
+			if signed && b.c == nil && c.e != nil && c.e.abstractFlag("abstract_rem", t) && c.e.sc.sortOf(t) == "(_ BitVec 64)" {
+				return c.mk(t, c.e.sremAbstract(a.S, b.S)), nil
+			}
 			return c.mk(t, bvop("bvsrem", "bvurem")), nil
 		case token.AND:
 			return c.mk(t, fmt.Sprintf("(bvand %s %s)", a.S, b.S)), nil
@@ -917,6 +946,14 @@ func (c *specCtx) call(n *ast.CallExpr) (sv, error) {
 		}
 		switch u := v.T.Underlying().(type) {
 		case *types.Slice:
+			// type invariant of slice values (true of every slice value a program can hold)
+			if !strings.Contains(v.S, "q.") && c.st != nil {
+				key := "wf:" + v.S
+				if !e.sc.funs[key] {
+					e.sc.funs[key] = true
+					e.sc.assert(and(e.le(e.sc.idxLit(0), "(s-len "+v.S+")"), e.le("(s-len "+v.S+")", "(s-cap "+v.S+")"), e.le("(s-cap "+v.S+")", e.sc.idxLit(maxLen))))
+				}
+			}
 			if id.Name == "len" {
 				return c.mk(tInt, "(s-len "+v.S+")"), nil
 			}
